@@ -6,6 +6,7 @@ package service
 import (
 	"container/list"
 	"net"
+	"sync"
 
 	"github.com/Jigsaw-Code/outline-sdk/transport/shadowsocks"
 	"github.com/shadowsocks/go-shadowsocks2/socks"
@@ -17,12 +18,15 @@ var (
 	verifListenFault bool
 	verifListenCalls int
 	verifReplyScript func(i int, pc *verifPacketConn)
+	verifListenMu    sync.Mutex
 )
 
 func verifListenPacket(network, address string) (net.PacketConn, error) {
 	if address != "" {
 		return verifListenSharedPacket(address)
 	}
+	verifListenMu.Lock()
+	defer verifListenMu.Unlock()
 	verifListenCalls++
 	if verifListenFault {
 		return nil, errVerifFault
@@ -496,7 +500,27 @@ func VH_C16_failed_client_write() {
 			total += int64(len(w.data))
 		}
 		verifAssert("C16.failed-write.sum-equals-socket", sent == total)
+		// whatever did reach the client is a well-formed reply: sender address, then the body
+		wi := 0
+		for i := range bodies {
+			if i+1 == failAt {
+				continue
+			}
+			ws := client.Writes()
+			verifAssert("C03.failed-write.other-replies-delivered", wi < len(ws))
+			if wi < len(ws) {
+				pt, err := shadowsocks.Unpack(nil, ws[wi].data, key)
+				verifAssert("C03.failed-write.reply-decrypts", err == nil)
+				if err == nil {
+					verifAssert("C03.failed-write.reply-intact", len(pt) == 7+len(bodies[i]) && pt[0] == 1 && verifBytesEq(pt[1:5], []byte{93, 184, 216, 34}) && verifBytesEq(pt[7:], bodies[i]))
+				}
+			}
+			wi++
+		}
+		verifAssert("C03.failed-write.nothing-else-sent", len(client.Writes()) == wi)
 	}
+	// one undeliverable reply does not end the association: it goes on relaying what the target sends
+	verifAssert("C14.failed-write.association-outlives-an-undeliverable-reply", len(verifTargets) == 1 && verifTargets[0].readPos == 3 && len(um.entries) == 1 && um.entries[0].removed == 1)
 	verifReach("C16.failed-write.done", true)
 }
 
@@ -525,4 +549,120 @@ func VH_C04_one_socket_across_generations() {
 	}
 	verifAssert("C04.generations.two-associations-in-total", len(verifChanTargets) == 2)
 	verifReach("C04.generations.done", true)
+}
+
+// C04: a datagram that is refused (junk, wrong key, refused destination) from a client that has
+// no association yet leaves no trace: the client's next valid datagram gets a socket of its own
+func VH_C04_rejected_then_valid() {
+	verifResetNet()
+	cl, specs, _ := verifMakeList(1, 1, false)
+	key := verifKey(specs[0].cipher, verifSecrets[specs[0].secret])
+	um := &verifUDPMetrics{}
+	h := NewPacketHandler(defaultNatTimeout, cl, um, nil)
+	client := &verifPacketConn{name: "client"}
+	y, x := verifClientAddrs[0], verifClientAddrs[1+verifChoice("x-addr", 2)]
+	var bad []byte
+	switch verifChoice("refused-how", 3) {
+	case 0:
+		bad = verifBytes("junk", 61)
+	case 1:
+		bad = verifPack(verifKey(0, "s3"), verifSocksV4([]byte{93, 184, 216, 34}, 443, []byte("n")))
+	case 2:
+		bad = verifPack(key, verifSocksV4([]byte{10, 0, 0, 1}, 443, []byte("p")))
+	}
+	py, px := verifBytes("py", 2), verifBytes("px", 3)
+	body := verifBytes("reply", 2)
+	verifReplyScript = func(i int, pc *verifPacketConn) {
+		if i == 1 {
+			pc.reads = append(pc.reads, verifRead{data: body, n: 2, addr: &net.UDPAddr{IP: net.IPv4(93, 184, 216, 34), Port: 443}})
+		}
+	}
+	client.reads = []verifRead{
+		{data: verifPack(key, verifSocksV4([]byte{93, 184, 216, 34}, 443, py)), addr: y},
+		{data: bad, addr: x},
+		{data: verifPack(key, verifSocksV4([]byte{93, 184, 216, 34}, 443, px)), addr: x},
+	}
+	h.Handle(client)
+	verifQuiesce()
+	verifAssert("C04.rejected-then-valid.own-socket", len(verifTargets) == 2)
+	if len(verifTargets) == 2 {
+		verifAssert("C04.rejected-then-valid.each-datagram-on-its-clients-socket",
+			len(verifTargets[0].writes) == 1 && verifBytesEq(verifTargets[0].writes[0].data, py) &&
+				len(verifTargets[1].writes) == 1 && verifBytesEq(verifTargets[1].writes[0].data, px))
+	}
+	ws := client.Writes()
+	verifAssert("C04.rejected-then-valid.reply-to-the-socket-owner", len(ws) == 1 && ws[0].addr == net.Addr(x))
+	verifReach("C04.rejected-then-valid.done", true)
+}
+
+// C03: one handler serves two listeners (one Handle loop per listener, as the server runs them).
+// The second listener's datagram is handled completely while the first one's destination is
+// being validated (the validator hook holds no lock, so anything may run there): the datagrams
+// of the two loops do not mix
+func VH_C03_two_listeners_one_handler() {
+	verifResetNet()
+	key0 := verifKey(verifChoice("cipher", 4), verifSecrets[0])
+	l := list.New()
+	e0 := MakeCipherEntry("id-0", key0, verifSecrets[0])
+	l.PushBack(&e0)
+	cl := NewCipherList()
+	cl.Update(l)
+	h := NewPacketHandler(defaultNatTimeout, cl, &verifUDPMetrics{}, nil)
+	p := [][]byte{verifBytes("first", 5), verifBytes("second", 5)}
+	clients := make([]*verifPacketConn, 2)
+	for i := range clients {
+		clients[i] = &verifPacketConn{name: "client"}
+		clients[i].reads = []verifRead{{data: verifPack(key0, verifSocksV4([]byte{93, 184, 216, byte(34 + i)}, 443, p[i])), addr: verifClientAddrs[i]}}
+	}
+	calls := 0
+	h.SetTargetIPValidator(func(ip net.IP) error {
+		calls++
+		if calls == 1 {
+			h.Handle(clients[1]) // the other listener's loop gets its datagram now
+		}
+		return nil
+	})
+	h.Handle(clients[0])
+	verifQuiesce()
+	verifAssert("C03.two-listeners.both-forwarded", len(verifTargets) == 2)
+	seen := 0
+	for _, t := range verifTargets {
+		for _, w := range t.writes {
+			ua := w.addr.(*net.UDPAddr)
+			i := int(ua.IP.To4()[3]) - 34
+			verifAssert("C03.two-listeners.payload-is-that-clients", i >= 0 && i < 2 && verifBytesEq(w.data, p[i]))
+			seen++
+		}
+	}
+	verifAssert("C03.two-listeners.each-once", seen == 2)
+	verifReach("C03.two-listeners.done", true)
+}
+
+// C16: a datagram too short to be anything, on an existing association, is still reported once
+// with its wire size and an error status
+func VH_C16_runt_on_association() {
+	verifResetNet()
+	cl, specs, _ := verifMakeList(1, 1, false)
+	key := verifKey(specs[0].cipher, verifSecrets[specs[0].secret])
+	um := &verifUDPMetrics{}
+	h := NewPacketHandler(defaultNatTimeout, cl, um, nil)
+	client := &verifPacketConn{name: "client"}
+	n := []int{0, 1, 10, 31, 32, 33}[verifChoice("runt-length", 6)]
+	runt := verifBytes("runt", n)
+	first := verifPack(key, verifSocksV4([]byte{93, 184, 216, 34}, 443, []byte("a")))
+	last := verifPack(key, verifSocksV4([]byte{93, 184, 216, 34}, 443, []byte("bc")))
+	client.reads = []verifRead{{data: first, addr: verifClientAddrs[0]}, {data: runt, n: n, addr: verifClientAddrs[0]}, {data: last, addr: verifClientAddrs[0]}}
+	h.Handle(client)
+	verifQuiesce()
+	verifAssert("C16.runt.one-association", len(um.entries) == 1)
+	if len(um.entries) == 1 {
+		fc := um.entries[0].fromClient
+		verifAssert("C16.runt.every-datagram-reported-once", len(fc) == 3)
+		if len(fc) == 3 {
+			verifAssert("C16.runt.first", fc[0].status == "OK" && fc[0].a == int64(len(first)) && fc[0].b == 1)
+			verifAssert("C16.runt.reported-with-wire-size-and-error", fc[1].status != "OK" && fc[1].a == int64(n) && fc[1].b == 0)
+			verifAssert("C16.runt.last", fc[2].status == "OK" && fc[2].a == int64(len(last)) && fc[2].b == 2)
+		}
+	}
+	verifReach("C16.runt.done", true)
 }
